@@ -560,6 +560,64 @@ func (r *run) c14() {
 		}
 		check(len(stream), false, nfull, k)
 	}
+	if !s.Failed() {
+		r.c14Limit(msgs, reuse)
+	}
+}
+
+// c14Limit: MaxMessageSize is "the maximum number of bytes that can be read per
+// call to Decode".  For every frame of the stream and limits around its exact
+// size (header included): a frame that fits decodes to what was written, a frame
+// that does not fit is refused, and in both cases a single Decode consumes no
+// more than the limit from the reader.
+func (r *run) c14Limit(msgs []frameMsg, reuse bool) {
+	s := r.s
+	for i, fm := range msgs {
+		frame := wire.BuildFrame(fm.segs)
+		F := len(frame)
+		for _, d := range []int{-24, -16, -8, 0, 8} {
+			lim := F + d
+			if lim < 8 {
+				continue
+			}
+			r.cases++
+			s.Probe("maxsize_boundary_case")
+			// the frame is followed by another copy, so that reading too much is possible
+			rd := simio.NewReader(append(append([]byte(nil), frame...), frame...))
+			dec := capnp.NewDecoder(rd)
+			dec.MaxMessageSize = uint64(lim)
+			if reuse {
+				dec.ReuseBuffer()
+			}
+			m, err := dec.Decode()
+			if rd.Pos > lim {
+				s.Fail("limit_exceeded", "message.go:(*Decoder).Decode", fmt.Sprintf("Decode with MaxMessageSize=%d read %d bytes from the stream for a frame of %d bytes (%d segments, reuse=%v, err=%v)", lim, rd.Pos, F, len(fm.segs), reuse, err))
+				return
+			}
+			switch {
+			case d < 0 && err == nil:
+				s.Fail("limit_exceeded", "message.go:(*Decoder).Decode", fmt.Sprintf("Decode with MaxMessageSize=%d accepted a frame of %d bytes (%d segments, header %d bytes, reuse=%v)", lim, F, len(fm.segs), F-bodyLen(fm.segs), reuse))
+				return
+			case d >= 0 && err != nil:
+				s.Fail("message_lost", "message.go:(*Decoder).Decode", fmt.Sprintf("Decode with MaxMessageSize=%d refused frame %d of %d bytes (%d segments, reuse=%v): %v", lim, i, F, len(fm.segs), reuse, err))
+				return
+			case d >= 0:
+				got, gerr := msgSegs(m)
+				if gerr != nil || !segsEqual(got, fm.segs) {
+					s.Fail("readback_mismatch", "message.go:(*Decoder).Decode", fmt.Sprintf("frame %d decoded with MaxMessageSize=%d differs from what was written (err=%v)", i, lim, gerr))
+					return
+				}
+			}
+		}
+	}
+}
+
+func bodyLen(segs [][]byte) int {
+	n := 0
+	for _, sg := range segs {
+		n += len(sg)
+	}
+	return n
 }
 
 func totalAlloc() uint64 {
